@@ -159,3 +159,40 @@ var d13Deviant = map[string]string{
 	`rate({a="b"} |~ "a\\.b" [5s])`:    `rate({a="b"} |~ "a.b" [5s])`,
 	`{a="b"} |~ "(?i)abc"`:             `{a="b"} |~ "ABC"`,
 }
+
+// stageKinds: one literal per stage kind of the LogQL log pipeline, chosen so that on the universal database of
+// meaning.go every stage both passes and rejects some lines / streams.
+var stageKinds = []string{
+	`|= "0"`,             // line filter, LIKE
+	`|~ "[0-9]+ [A-Z]+"`, // line filter, true regex
+	`| c="d"`,            // label filter answered on the stream labels
+	`| code="500"`,       // label filter on a label only a parser produces
+	`| json code="code"`, // ClickHouse-side parser with parameters
+	`| regexp "(?P<code>[0-9]+) (?P<verb>[A-Z]+)"`, // ClickHouse-side parser
+	`| json`,                           // in-process parser (breakpoint)
+	`| logfmt`,                         // in-process parser (breakpoint)
+	`| line_format "{{.c}} {{.code}}"`, // in-process stage
+	`| drop c`,                         // drop
+	`| label_format z=c`,               // rename (a constant value crashes the reader: C12)
+}
+
+// pipelineSpecs: every sequence of 1, 2 and 3 stage kinds behind one stream selector (log queries), and every
+// sequence of 1 and 2 inside count_over_time (metric queries).  Used for the re-execution part only.
+func pipelineSpecs() []Spec {
+	var out []Spec
+	var rec func(prefix string, depth, max int, emit func(string))
+	rec = func(prefix string, depth, max int, emit func(string)) {
+		if depth > 0 {
+			emit(prefix)
+		}
+		if depth == max {
+			return
+		}
+		for _, k := range stageKinds {
+			rec(prefix+" "+k, depth+1, max, emit)
+		}
+	}
+	rec(`{a="b"}`, 0, 3, func(q string) { out = append(out, L(q)) })
+	rec(`{a="b"}`, 0, 2, func(q string) { out = append(out, M(`sum by (c) (count_over_time(`+q+` [5s]))`)) })
+	return out
+}
